@@ -945,6 +945,39 @@ def _is_literal_default(d) -> bool:
         or (isinstance(d, ast.UnaryOp) and isinstance(d.operand, ast.Constant))
 
 
+class _SubstName(ast.NodeTransformer):
+    def __init__(self, name, value):
+        self.name, self.value = name, value
+
+    def visit_Name(self, n):
+        if n.id == self.name and isinstance(n.ctx, ast.Load):
+            return ast.copy_location(_clone(self.value), n)
+        return n
+
+
+def _propagate_until_store(blk: list, pn: str, d: ast.AST) -> bool:
+    """The parameter pn holds its default d on entry: walk the statements of blk in order, putting d for pn and folding the `if`s
+    that this decides (taking the live arm), up to the first statement that may re-bind pn. Returns False once pn was re-bound."""
+    i = 0
+    while i < len(blk):
+        st = blk[i]
+        if isinstance(st, ast.If):
+            t = _SubstName(pn, d).visit(_clone(st.test))
+            tv = _const_truth(t)
+            if tv is not None and not any(isinstance(x, ast.Name) and x.id == pn and isinstance(x.ctx, ast.Store) for x in ast.walk(st.test)):
+                live = st.body if tv else st.orelse
+                blk[i:i + 1] = live or [ast.copy_location(ast.Pass(), st)]
+                if live and isinstance(live[-1], (ast.Return, ast.Raise, ast.Continue, ast.Break)):
+                    del blk[i + len(live):]
+                continue        # the live arm's statements are examined in turn
+        if any(isinstance(x, ast.Name) and x.id == pn and isinstance(x.ctx, (ast.Store, ast.Del)) for x in ast.walk(st)) or isinstance(st, (ast.For, ast.While, ast.Try, ast.With)) and \
+                any(isinstance(x, ast.Name) and x.id == pn for x in ast.walk(st)):
+            return False
+        blk[i] = _SubstName(pn, d).visit(st)
+        i += 1
+    return True
+
+
 def bind_new_parameters(modules) -> int:
     """Additive API: a reviewed function (sa/known_signatures.json) that has gained a parameter with a literal default, which
     every call inside the package either omits or passes as that same default (literally, or by forwarding its own new
@@ -1081,6 +1114,8 @@ def bind_new_parameters(modules) -> int:
         n += 1
         stored = any(isinstance(x, ast.Name) and x.id == pn and isinstance(x.ctx, (ast.Store, ast.Del)) for st in fn.body for x in ast.walk(st))
         nested = any(isinstance(x, (ast.FunctionDef, ast.Lambda)) and x is not fn for x in ast.walk(fn))
+        if stored and not nested:
+            _propagate_until_store(fn.body, pn, d)
         if stored or nested:
             k = 1 if fn.body and isinstance(fn.body[0], ast.Expr) and isinstance(fn.body[0].value, ast.Constant) and isinstance(fn.body[0].value.value, str) else 0
             if len(fn.body) > k and isinstance(fn.body[k], ast.Assign) and ast.unparse(fn.body[k]) == f"{pn} = {ast.unparse(d)}":
@@ -1568,38 +1603,41 @@ def drop_empty_fast_paths(tree: ast.AST) -> int:
     return n
 
 
+def _const_truth(t):
+    neg = False
+    while isinstance(t, ast.UnaryOp) and isinstance(t.op, ast.Not):
+        t, neg = t.operand, not neg
+    if isinstance(t, ast.Constant) and isinstance(t.value, bool):
+        return t.value != neg
+    if isinstance(t, ast.Constant) and t.value is None:
+        return False != neg
+    # literal identity tests: `None is None`, `False is not None`, `0 is None`
+    if isinstance(t, ast.Compare) and len(t.ops) == 1 and isinstance(t.ops[0], (ast.Is, ast.IsNot)) and isinstance(t.left, ast.Constant) and isinstance(t.comparators[0], ast.Constant) \
+            and (t.left.value is None or t.comparators[0].value is None):
+        same = t.left.value is None and t.comparators[0].value is None
+        return (same if isinstance(t.ops[0], ast.Is) else not same) != neg
+    # `False and X`, `p and False` (p without calls), `True or X`: decided by the literal
+    if isinstance(t, ast.BoolOp):
+        is_and = isinstance(t.op, ast.And)
+        pure_so_far = True
+        all_neutral = True
+        for v in t.values:
+            tv = _const_truth(v)
+            if tv is not None and tv == (not is_and) and pure_so_far:
+                return (not is_and) != neg
+            if tv is None or tv != is_and:
+                all_neutral = False
+            if any(isinstance(x, (ast.Call, ast.NamedExpr, ast.Await, ast.Yield, ast.YieldFrom)) for x in ast.walk(v)):
+                pure_so_far = False
+        if all_neutral:
+            return is_and != neg
+    return None
+
+
 def fold_constant_tests(tree: ast.AST):
     """`if True:` / `if not False:` ... (a literal flag, typically a helper's boolean parameter bound at the call site by an
     expansion): only the live arm remains; `A if True else B` is A."""
-    def truth(t):
-        neg = False
-        while isinstance(t, ast.UnaryOp) and isinstance(t.op, ast.Not):
-            t, neg = t.operand, not neg
-        if isinstance(t, ast.Constant) and isinstance(t.value, bool):
-            return t.value != neg
-        if isinstance(t, ast.Constant) and t.value is None:
-            return False != neg
-        # literal identity tests: `None is None`, `False is not None`, `0 is None`
-        if isinstance(t, ast.Compare) and len(t.ops) == 1 and isinstance(t.ops[0], (ast.Is, ast.IsNot)) and isinstance(t.left, ast.Constant) and isinstance(t.comparators[0], ast.Constant) \
-                and (t.left.value is None or t.comparators[0].value is None):
-            same = t.left.value is None and t.comparators[0].value is None
-            return (same if isinstance(t.ops[0], ast.Is) else not same) != neg
-        # `False and X`, `p and False` (p without calls), `True or X`: decided by the literal
-        if isinstance(t, ast.BoolOp):
-            is_and = isinstance(t.op, ast.And)
-            pure_so_far = True
-            all_neutral = True
-            for v in t.values:
-                tv = truth(v)
-                if tv is not None and tv == (not is_and) and pure_so_far:
-                    return (not is_and) != neg
-                if tv is None or tv != is_and:
-                    all_neutral = False
-                if any(isinstance(x, (ast.Call, ast.NamedExpr, ast.Await, ast.Yield, ast.YieldFrom)) for x in ast.walk(v)):
-                    pure_so_far = False
-            if all_neutral:
-                return is_and != neg
-        return None
+    truth = _const_truth
     for owner in ast.walk(tree):
         for field in ("body", "orelse", "finalbody"):
             blk = getattr(owner, field, None)
@@ -1648,6 +1686,8 @@ def spread_keyword_dicts(tree: ast.AST) -> int:
                 d_[x.id] = d_.get(x.id, 0) + 1
 
         def as_keywords(v):
+            if (isinstance(v, ast.Dict) and not v.keys) or (isinstance(v, ast.Call) and isinstance(v.func, ast.Name) and v.func.id == "dict" and not v.args and not v.keywords):
+                return []        # f(**{}) is f()
             if isinstance(v, ast.Dict) and v.keys and all(isinstance(k, ast.Constant) and isinstance(k.value, str) and k.value.isidentifier() for k in v.keys):
                 return [ast.keyword(arg=k.value, value=val) for k, val in zip(v.keys, v.values)]
             if isinstance(v, ast.Call) and isinstance(v.func, ast.Name) and v.func.id == "dict" and not v.args and v.keywords and all(k.arg is not None for k in v.keywords):
